@@ -94,8 +94,12 @@ class C10World(object):
                         ev['faults'].append({'kind': 'F6', 'target': 'fn.' + fname, 'k': 0,
                                              'inner': rng.choice(['parse', 'eval']), 's': sj,
                                              't': rng.randrange(len(alpha[sj]['texts']))})
-            else:
+            elif r < 0.96:
                 ev = {'op': 'dep', 's': si, 't': ti}
+            else:
+                # another consumer of the reported names: a SumGrader whose limits use functions
+                ev = {'op': 'sum', 's': si, 't': ti, 'limit': rng.choice(['sqrt(16)', 'abs(-3)', 'floor(4.5)', '4']),
+                      'subseed': rng.getrandbits(31)}
             if rng.random() < rates['F3'] and ev['op'] in ('parse', 'eval') and not ev.get('faults'):
                 ev['headroom'] = rng.random()
             events.append(ev)
@@ -301,6 +305,22 @@ class Run(object):
             if o['k'] != 'exc' or o['fam'] != 'config':
                 self.violate('truth', i, 'dep', 'DependentSampler(%r) gave %s for a malformed formula'
                              % (text, short(o)))
+        return o
+
+    def do_sum(self, i, ev):
+        """SumGrader collects the functions used in limits and summand; the summand's cached
+        name sets must not change because of that (judged by the following parse and by R2)."""
+        ent = self.alpha[ev['s']]
+        text = ent['texts'][ev['t']]
+        self.touched.add(text)
+        g = self.lib.mitx.SumGrader(answers={'lower': '1', 'upper': '4', 'summand': 'n', 'summation_variable': 'n'})
+        seams.seed_lib(ev['subseed'])
+        o = outcome(g, None, ['1', ev['limit'], text, 'n'])
+        # ask for the names right away
+        fresh = self.lib.expressions.MathParser()
+        o1 = outcome(lambda: names_of(self.calc.parse(text)))
+        o2 = outcome(lambda: names_of(fresh.parse(text)))
+        self.judge(i, 'parse', text, ent, o1, o2, False)
         return o
 
     def do_grade(self, i, ev):
